@@ -730,7 +730,7 @@ class BigQueryParser(parser.Parser):
 
             # Get the LHS of the Kwarg and set the arg to that value, e.g
             # "num_rows => 1" sets the expr's `num_rows` arg
-            if arg:
+            if arg and arg.this:
                 expr.set(arg.this.name, arg)
 
         return expr
